@@ -17,6 +17,7 @@
 import JV.Proofs.Utf8
 import JV.Proofs.JsonParserNumber
 import JV.Proofs.JsonParserDepth
+import JV.Proofs.JsonParserString
 namespace JV.Props.C02
 open JV Spec.Rfc8259
 
@@ -78,6 +79,21 @@ theorem number_step_follows_automaton (s : St) (c : Nat) (ns' : NS) (h : numNext
 theorem number_text_is_accepted (cfg : Cfg) (lit : Bytes) (h : ∃ l, Spec.Rfc8259.parseNumber lit = some (l, [])) :
     accepted (run cfg lit) = true ∧ ((run cfg lit).evs = [Ev.int lit] ∨ (run cfg lit).evs = [Ev.frac lit]) :=
   number_text_accepted cfg lit ((numAccepts_iff lit).2 h)
+
+/-- every `\uXXXX` escape that denotes a scalar value is decoded to that scalar's UTF-8 (the code unit is the one the reference's
+    `hex4` reads), for every parser state inside a string after a backslash -/
+theorem escape_decodes_scalar (cfg : Cfg) (s : St) (a b c d u : Nat) (hst : s.st = .string) (hss : s.ss = .escape) (he : s.err = none)
+    (hx : hex4 [a, b, c, d] = some (u, [])) (hu : u < 0xD800 ∨ 0xE000 ≤ u) :
+    feed cfg s [117, a, b, c, d] = { s with cp := u, buf := s.buf ++ utf8Encode u, ss := .text } :=
+  escape_u_scalar cfg s a b c d u hst hss he hx hu
+
+/-- a surrogate pair `\uD8xx\uDCxx` is decoded to the UTF-8 of the ONE scalar value it denotes, 0x10000 + (hi-0xD800)*0x400 + (lo-0xDC00) -/
+theorem surrogate_pair_decodes_scalar (cfg : Cfg) (s : St) (a b c d e f g h hi lo : Nat) (hst : s.st = .string) (hss : s.ss = .escape)
+    (he : s.err = none) (hx : hex4 [a, b, c, d] = some (hi, [])) (hy : hex4 [e, f, g, h] = some (lo, []))
+    (hhi : 0xD800 ≤ hi ∧ hi ≤ 0xDBFF) (hlo : 0xDC00 ≤ lo ∧ lo ≤ 0xDFFF) :
+    feed cfg s [117, a, b, c, d, 92, 117, e, f, g, h] =
+      { s with cp := hi, cp2 := lo, buf := s.buf ++ utf8Encode (0x10000 + (hi - 0xD800) * 1024 + (lo - 0xDC00)), ss := .text } :=
+  escape_u_pair cfg s a b c d e f g h hi lo hst hss he hx hy hhi hlo
 
 /-- at no point of any input does a parser that has not failed sit deeper than `max_nesting_depth` -/
 theorem nesting_never_exceeds_limit (cfg : Cfg) (text : Bytes) (h : (feed cfg init text).err = none) :
